@@ -1,7 +1,7 @@
 (* C02 - every runner request is answered exactly once; queue full => busy error at once; the scheduler drains.
    Theorems only. *)
 From Coq Require Import List ZArith NArith Bool Lia Arith.
-From V Require Import Sched.Lts Sched.Reach Sched.InvOwn Sched.Examples.
+From V Require Import Sched.Lts Sched.Reach Sched.InvOwn Sched.InvLock Sched.Refute Sched.Dead Sched.Examples.
 Import ListNotations.
 
 (* A submit that finds the pending queue full is answered in the same step with the busy error, the request is
@@ -42,3 +42,27 @@ Print Assumptions C02_at_most_one_reply.
 Example C02_at_most_one_reply_nonvacuous :
   exists s ev, run cfg_on (init_m 1) ex_load_unload = Some (s, ev) /\ n_reply 0 ev = 1.
 Proof. vm_compute. eexists; eexists; split; reflexivity. Qed.
+
+(* Repaired scheduler: in every reachable state in which some scheduler thread waits for a mutex (loadedMu or a
+   runner's refMu), some scheduler thread can take a step: the chain "waits for loadedMu -> its holder waits for
+   refMu(r) -> its holder" ends in a runnable thread, because a refMu of a registered runner is never held while
+   waiting for loadedMu (one lock order), and the only refMu held while waiting for loadedMu belongs to a runner
+   nobody else refers to yet.  No lock deadlock. *)
+Theorem C02_no_lock_deadlock :
+  forall c m ls s ev t, fixed c -> run c (init_m m) ls = Some (s, ev) -> waits_for_mutex c s t ->
+  exists t' alt, step c s (LRun t' alt) <> None.
+Proof. intros c m ls s ev t Hf H W. eapply no_lock_deadlock; eauto. eapply run_Reach; eauto. Qed.
+Print Assumptions C02_no_lock_deadlock.
+
+(* Over all configurations (the scheduler as found) the statement is false: processCompleted's expired branch
+   takes refMu then loadedMu, expireRunner loadedMu then refMu (Sched/Refute.v, replayed from corpus/C02). *)
+Definition C02_no_lock_deadlock_full : Prop := no_lock_deadlock_full.
+Theorem C02_no_lock_deadlock_refuted : ~ C02_no_lock_deadlock_full.
+Proof. exact no_lock_deadlock_refuted. Qed.
+Print Assumptions C02_no_lock_deadlock_refuted.
+
+Example C02_no_lock_deadlock_nonvacuous :
+  (* in the repaired model the same schedule prefix leaves expireRunner waiting for refMu while the completed loop
+     holds loadedMu and refMu and can run *)
+  fixed cfg_on /\ exists s ev, run cfg_on (init_m 1) (firstn 22 w_deadlock ++ [LExpire 0; LRun 4 0%Z; LRun 1 0%Z; LRun 1 0%Z]) = Some (s, ev).
+Proof. split. reflexivity. vm_compute. eexists; eexists; reflexivity. Qed.
